@@ -15,7 +15,7 @@ THEOREMS = {"safe_class_matches_source": "full (translator tie): safe_output of 
             "listing_printable": "full: every byte of every l/lv/v/vv listing, any quiet level, for ARBITRARY headers",
             "print_banners_printable": "full: lha p = banner segments (printable/newline) + member contents",
             "(t/x progress and error messages go through the sanitiser)": "correspondence only"}
-TRUSTED = ["gen/ext_tool.c + gcc: os_type_to_string, safe_output and MAX_PROGRESS_LEN are evaluated by compiling src/list.c, src/safe.c, src/extract.c", "model LhasaV.Model.Safe of safe_output (src/safe.c), tied by the `safe` op; which call sites go through it is observed on the "
+TRUSTED = ["an ISO-8859-1 LC_CTYPE compiled with localedef into the run's temp area (vlib/locale8.py) for half of the tool runs; if localedef is missing all runs use the C locale (recorded in evidence as locale8)", "gen/ext_tool.c + gcc: os_type_to_string, safe_output and MAX_PROGRESS_LEN are evaluated by compiling src/list.c, src/safe.c, src/extract.c", "model LhasaV.Model.Safe of safe_output (src/safe.c), tied by the `safe` op; which call sites go through it is observed on the "
            "real tool's stdout/stderr, mode by mode"]
 ASSUMPTIONS = ["file contents dumped by `p` are outside the property: generated members contain printable data"]
 RULE = ("archives whose header string fields carry arbitrary bytes 0x01..0xFF: in-header names, name / path / user / group extended headers, "
